@@ -129,7 +129,15 @@ def validate(ctx, items, mine, label, nproc=12):
         elif clause.startswith(mine):
             q = v[4]
             ctx.failure({"clause": clause, "kernel": it["g"]["kern"], "weight": it["g"]["wkind"]},
-                        {"kind": "image", "g": it["g"], "emb": it["emb"].name, "dgms": it["dgms"], "image": (mp[q - 1] if 0 < q <= len(mp) else None), "at": v[4:7], "job": it["job"]})
+                        {"kind": "image", "g": it["g"], "emb": it["emb"].name, "dgms": it["dgms"], "skews": it["skews"], "names": it["names"],
+                         "image": (mp[q - 1] if 0 < q <= len(mp) else None), "at": v[4:7], "job": it["job"]})
         else:
             ctx.extra["failures_owned_by_other_property"] = ctx.extra.get("failures_owned_by_other_property", 0) + 1
             ctx.traces_total += 1
+
+
+def replay(ctx, rec, mine):
+    c = rec["case"]
+    e = next(x for x in EXACT_EMBS if x.name == c["emb"])
+    it = dict(g=c["g"], dgms=c["dgms"], skews=c.get("skews", [1] * len(c["dgms"])), names=c.get("names", [str(i) for i in range(len(c["dgms"]))]), job=c["job"], emb=e)
+    validate(ctx, [it], mine, "replay", nproc=1)
